@@ -1508,7 +1508,7 @@ def fold_cases(P, res):
 
 
 
-def select_target_cases(P, res):
+def select_target_cases(P, res, nodes_only=False):
     """Every SELECT target is compiled from its expression, named by get_target_name(target) and marked aggregate or not."""
     fi = _method(P, '_compile_targets')
     TG1, TG2, TG3 = Sym('AST_TARGET1'), Sym('AST_TARGET2'), Sym('AST_TARGET3')
@@ -1564,6 +1564,9 @@ def select_target_cases(P, res):
         v = p.value
         items = v.items if isinstance(v, SList) and not v.opaque_tail else None
         want = [T('new', ('EvalTarget', (CE[t], T('call', ('get_target_name', (t,), ())), t == TG2), ())) for t in tgs]
+        if nodes_only and p.outcome == 'return' and items is not None and len(items) == len(tgs) and all(
+                isinstance(x, T) and x.op == 'new' and x.args[1][:1] == (CE[t],) for x, t in zip(items, tgs)):
+            continue          # every target has its own compiled node, in order: names and flags are judged elsewhere (R-HIDDEN)
         if p.outcome != 'return' or items != want:
             ok = False
             got = ', '.join(show(x)[:70] for x in items) if items is not None else show(v)[:120]
